@@ -27,6 +27,14 @@ CHECKS = {
    "Per node class x 6 resolver configurations (targets AND / OR / boolean operation; Lucene-like mode with empty, OR or AND memory) the real UnknownOperationResolver visit is run with abstract children stubbed by the contract Res and must return a fresh node of the same type (the target for an implicit operation), with the input's position and layout, the resolved children in the same order and number, a fingerprint equal to the input's with implicit nodes relabelled, add_head inserted in front of exactly the 2nd.. operands of a resolved node, the input and the caller's context untouched (except the documented last_operation entry); a tree without implicit operations is copied (idempotence). Any add_head string, any attribute values, any number of operands.",
    "A1-A10; boolean-meaning preservation is the paper consequence 'the result is the input relabelled'; the Lucene-mode statement 'AND throughout without explicit operators' follows on paper from the per-visit bookkeeping obligations.",
    "contract-based deductive verification: per-class Res contract on the real transformer code with stubbed sub-term visits, ADT fingerprints with an uninterpreted relabelling function, z3"),
+ "C13": ("exploration", "3.C13",
+   "Structural clauses are PROVED per node class on the real AutoHeadTail code with stubbed sub-term visits: the result is a fresh tree equal to the input, the input and the context are untouched, exactly the empty heads/tails at separator positions (operands of operations, operand of NOT, range bounds) become one blank, non-empty ones are identical, separator positions are non-empty afterwards (idempotence) - for all layouts and any number of operands (generic member of an operand run). The clause 'its printed form is accepted and parses back to an equal tree' needs the LR parser on a constructed string and is decided by a BOUNDED stand-in (all layout-free / partially laid-out trees from token sequences of <= 5 (quick) / 6 tokens), hence level exploration.",
+   "A1-A10 for the proved clauses; the parse-back clause is bounded by token-sequence length and not proved.",
+   "contract-based deductive verification of the structural contract (per class, z3) + bounded parse-back stand-in (native, exhaustive over token sequences)"),
+ "C17": ("proof", "3.C17",
+   "mark_node is proved for index paths of any depth with a cut-point invariant on its while loop (init / preserved / decreases / exit): a node is left untouched or wrapped with its own class, wrapped whenever its class differs from the class inherited from the nearest marked ancestor, never when unmarked; css_class and the tag format proved for arbitrary class and element names; ExpressionMarker.generic_visit proved per node class (marks a fresh equal copy that prints like the input, once, with its own index path, children in order, input untouched). The statement about rendered classes, nesting and erasure follows by the lemma L-MARK whose induction step is discharged by z3.",
+   "A1-A10; L-MARK composition is a paper argument over the print contract C01-T; sets of paths are z3 sets over integer sequences.",
+   "contract-based deductive verification: loop invariant + per-class marking contract on the real code, z3 (sequences, sets, ADT option type)"),
 }
 PENDING = {
 }
